@@ -31,6 +31,13 @@ const STMTS = {
   member_plus_assign: 'o.p += a;',
   chain_with_args: 'x = s?.concat(a)?.substring(1);'
 }
+// (only in the configuration lattice below, not in the permutations)
+const LATTICE_STMTS = {
+  tpl_of_sums: 'x = `${a + b}${b + c}`;',
+  call_of_sum: 'x = a.concat(b + c);',
+  bare_of_sum: 'x = aloneMethod(a + b);',
+  tpl_without_substitution: 'y = `text`;'
+}
 const VERBOSITIES = [undefined, 'OFF', 'MANDATORY', 'INFORMATION', 'DEBUG', 'debug']
 
 module.exports = mk({
@@ -72,6 +79,15 @@ module.exports = mk({
       const cfg = Object.assign({}, C[cfgName], { telemetryVerbosity: verb })
       r.stats.states++; r.stats.transitions++
       leaves.push({ fam: 'perm', key: 'spelling¦' + st + '¦' + verb + '¦' + cfgName, code: `function main(a, b, c, s, o, h) { let x, y, i = 0; ${STMTS[st]} return x }`, config: cfg, file: '/p/app.js', desc: 'spelling ' + verb })
+    }
+    // the lattice of operation sets: every statement alone and next to a hooked one, under every configuration
+    // that enables only part of the operations (an operation that is inspected, left alone, and whose operands
+    // are not collected is the case the counters get wrong)
+    const LS = Object.assign({}, STMTS, LATTICE_STMTS)
+    for (const st of Object.keys(LS)) for (const cfgName of ['PLUS_ONLY', 'TPL_ONLY', 'METHODS_ONLY', 'SHARED_DST', 'NOTHING']) for (const verb of [undefined, 'DEBUG']) for (const extra of ['', 'hooked_call']) {
+      const cfg = Object.assign({}, C[cfgName]); if (verb) cfg.telemetryVerbosity = verb
+      r.stats.states++; r.stats.transitions++
+      leaves.push({ fam: 'perm', key: 'lattice¦' + st + '¦' + cfgName + '¦' + verb + '¦' + extra, code: `function main(a, b, c, s, o, h) { let x, y, i = 0; ${LS[st]} ${extra ? STMTS[extra] : ''} return x }`, config: cfg, file: '/p/app.js', desc: 'lattice ' + cfgName })
     }
     // counts around the sizes at which a narrow counter would wrap or a list would be capped
     for (const n of tier === 'thorough' ? [9, 10, 11, 99, 100, 101, 255, 256, 257, 1000, 65536] : [9, 10, 11, 255, 256, 257, 1000]) {
